@@ -247,7 +247,8 @@ func c06(env *core.Env, mode string) {
 	switch c.Int("locations", 5) {
 	case 1:
 		opts.LocationsForDescriptor = func(isManifest bool, desc ociregistry.Descriptor) ([]string, error) {
-			return []string{"http://cdn.example/" + string(desc.Digest)}, nil
+			// (where the thing can be fetched depends on what it is)
+			return []string{"http://cdn.example/" + map[bool]string{true: "manifests", false: "blobs"}[isManifest] + "/" + string(desc.Digest)}, nil
 		}
 	case 2:
 		opts.LocationsForDescriptor = func(isManifest bool, desc ociregistry.Descriptor) ([]string, error) {
@@ -554,6 +555,14 @@ func c06(env *core.Env, mode string) {
 			}
 			return v
 		}
+		// the Location of something created says where it can be fetched: a manifest under
+		// manifests, a blob under blobs (also when the server is given its locations by
+		// Options.LocationsForDescriptor, which is told which of the two it is asked about)
+		locationOf := func(loc, what string) {
+			if !strings.Contains(loc, "/"+what+"/") {
+				env.Failf(class("location-of-the-wrong-kind"), "%s %s?%s answered %d with Location %q, which is not under /%s/", method, path, rawq, status, loc, what)
+			}
+		}
 		kind := strings.SplitN(tmpl, "/", 2)[0]
 		switch {
 		case kind == "blob" && (method == "GET" || method == "HEAD") && (status == 200 || status == 206):
@@ -597,7 +606,7 @@ func c06(env *core.Env, mode string) {
 				need("Docker-Content-Digest")
 			}
 		case kind == "manifest" && method == "PUT" && status == 201:
-			need("Location")
+			locationOf(need("Location"), "manifests")
 			if d := need("Docker-Content-Digest"); d != string(reg.Sha256(body)) {
 				env.Failf(class("wrong-digest-header"), "PUT %s answered Docker-Content-Digest %s for content hashing to %s", path, d, reg.Sha256(body))
 			}
@@ -605,7 +614,7 @@ func c06(env *core.Env, mode string) {
 			need("Location")
 			need("Range")
 		case kind == "uploads" && method == "POST" && status == 201:
-			need("Location")
+			locationOf(need("Location"), "blobs") // a single-request upload, or a mount
 			need("Docker-Content-Digest")
 		case kind == "upload" && method == "PATCH" && status == 202:
 			need("Location")
@@ -614,7 +623,7 @@ func c06(env *core.Env, mode string) {
 			need("Location")
 			need("Range")
 		case kind == "upload" && method == "PUT" && status == 201:
-			need("Location")
+			locationOf(need("Location"), "blobs")
 			need("Docker-Content-Digest")
 		case (kind == "catalog" || kind == "tags" || kind == "referrers") && method == "GET" && status == 200:
 			var v map[string]any
